@@ -145,6 +145,22 @@ def scan_pins():
     return pins, callers
 
 
+def scan_terminator_chains():
+    """(rule, chain name) for every `getRules("<chain>")` call in a block rule's source"""
+    import inspect
+    from markdown_it import parser_block
+
+    out = []
+    for name, fn, _alt in parser_block._rules:
+        try:
+            src = inspect.getsource(fn)
+        except (OSError, TypeError):
+            continue
+        for m in re.finditer(r"getRules\(\s*[\"']([a-z_]*)[\"']\s*\)", src):
+            out.append((name, m.group(1)))
+    return out
+
+
 def scan_parent_readers():
     """block rules whose source tests state.parentType (reads it, other than to save/restore)"""
     import inspect
@@ -287,6 +303,8 @@ def generate() -> list[str]:
     w("def blockPins : List (String × String) := " + llist(pins, lambda r: f"({lstr(r[0])}, {lstr(r[1])})"))
     w("/-- block rules that run a terminator chain (`getRules(` in their source) -/")
     w("def terminatorCallers : List String := " + llist(callers))
+    w("/-- which terminator chain each block rule asks the ruler for (`getRules(\"…\")` in its source) -/")
+    w("def terminatorChains : List (String × String) := " + llist(scan_terminator_chains(), lambda r: f"({lstr(r[0])}, {lstr(r[1])})"))
     w("/-- block rules that test `state.parentType` -/")
     w("def parentReaders : List String := " + llist(scan_parent_readers()))
     w("end MdIt.Gen")
